@@ -2,6 +2,7 @@ package gtprovider
 
 import (
 	"os"
+	"strconv"
 	"strings"
 	"sync"
 	"text/template"
@@ -132,7 +133,8 @@ func (provider *Provider) View(layoutName, viewName string) (tmpl *template.Temp
 	if viewName == "" {
 		return nil, goaterr.Errorf("goathtml.Provider: A view name is required")
 	}
-	key = layoutName + ":" + viewName
+	// the length prefix keeps keys of different (layout, view) pairs apart when names contain ":"
+	key = strconv.Itoa(len(layoutName)) + ":" + layoutName + ":" + viewName
 	return provider.view(layoutName, viewName, key)
 }
 
